@@ -28,6 +28,19 @@ CLAIMED = {
              "context::current() span deadline not exercised.",
         technique="Lean 4 arithmetic/induction proofs (omega) + model/implementation correspondence under virtual time",
         design="8/C07"),
+    "C15": dict(
+        text="Lean 4 theorems over a byte-level model of the bincode (DefaultOptions) wire form of every protocol message: "
+             "varint/zigzag round trips for all widths and values, round trip and prefix-freeness of every ClientMessage "
+             "and Response (any ids, durations, trace ids, bodies under an abstract prefix-free body codec; String and u64 "
+             "instances), the 18 portable error kinds round-trip and all others degrade to Other over the tables "
+             "REGENERATED from util/serde.rs on every run (incl. the written integer type), witness theorem for the "
+             "pre-fix i32/u32 mismatch; tied to the code byte-exactly: real bincode encodings == model encodings, real "
+             "decodes of valid/mutated/truncated bytes == model decodes.",
+        note="Trusted: Lean kernel; axioms propext/Classical.choice/Quot.sound; translator (tables), harness + ./check; "
+             "bincode 1.3 / serde-derive schema as modelled. Length-delimited framing under arbitrary fragmentation, "
+             "in-memory FIFO transports and the JSON form are added as further families/theorems of this check as they land.",
+        technique="Lean 4 codec round-trip proofs over translator-generated tables + byte-exact model/implementation correspondence",
+        design="8/C15"),
     "C19": dict(
         text="Lean 4 theorems over an executable model of the request-hook combinators (HookThenServe, ServeThenHook, "
              "HookThenServeThenHook, BeforeRequestCons/Nil, then, serving), for every wrapper stack, hook script, "
